@@ -42,14 +42,14 @@ theorem skel_ComputeResponse : Skel.ComputeResponse = ["hmac.New", "h.Write", "h
 theorem skel_GenerateChallenge : Skel.GenerateChallenge = ["rand.Read", "hex.EncodeToString"] := by decide
 
 /-- session layer: parse, get-or-create, handler, respond, then (guarded) look up the old connection, remove it, `UpdateAuth` -/
-theorem skel_handleHandshake : Skel.handleHandshake =
+theorem skel_handleHandshake : Skel.C03_handleHandshake =
     ["json.Unmarshal", "getControlConnectionByConnID", "getConnectionByConnID", "NewControlConnection",
      "RegisterControlConnection", "getControlConnectionByConnID", "getConnectionByConnID", "NewControlConnection",
      "RegisterControlConnection", "authHandler.HandleHandshake", "sendHandshakeResponse", "sendHandshakeResponse",
      "clientRegistry.GetByClientID", "clientRegistry.Remove", "clientRegistry.UpdateAuth", "getConnectionByConnID",
      "getConnectionByConnID"] := by decide
 
-theorem skel_removeConnectionLocked : Skel.removeConnectionLocked = ["Stream.Close", "delete", "delete"] := by decide
+theorem skel_removeConnectionLocked : Skel.C03_removeConnectionLocked = ["Stream.Close", "delete", "delete"] := by decide
 theorem skel_RecordFailure : Skel.RecordFailure = ["cleanupOldFailures", "banIP", "banIP"] := by decide
 
 /-- the decision expressions of `HandleHandshake`, as written in the source -/
